@@ -33,14 +33,15 @@ def gen_case(rng, transport):
         exp = ("std", k, arg)
     flags = rng.choice([0, 0, 0, 1])
     secs.append(S.script_text(b"a.b.M", [step, S.Step("r", "e", val="{66616c6c6261636b:T}")], False))
-    return " | ".join(secs + ["transport " + transport, "call %d %s {} 1" % (flags, b"a.b.M".hex())]), exp
+    # the same call again from a caller with a typed reply struct (fields a, b, k, method, parameters, interface, parameter of other types than the error carries)
+    return " | ".join(secs + ["transport " + transport, "call %d %s {} 1" % (flags, b"a.b.M".hex()), "typedcall %s {}" % b"a.b.M".hex()]), exp
 
 
 def main(pid, argv):
     ck = V.Check(pid, argv)
     ck.rule = ("cases: a handler calls ReplyError with names from an error-name grammar (dots anywhere, empty parts, unicode, NUL, the reserved namespace "
                "org.varlink.service and near-misses such as org.varlink.servicex.E / org.varlink.service / org.varlink.service.sub.E) x JSON parameter objects "
-               "incl. none, or one of the four standard-error helpers with arbitrary strings; a real client receives the reply. When the error is refused "
+               "incl. none, or one of the four standard-error helpers with arbitrary strings; a real client receives the reply, once into a raw out value and once into a typed struct whose field names collide with error parameters. When the error is refused "
                "the handler sends a marker reply instead, so the client observes the refusal. distinct = distinct (name, parameters); non-trivial = name contains a dot")
     ck.assumptions = ["names that are not valid UTF-8 are compared with the model only"]
     ck.check_obligations()
@@ -63,8 +64,10 @@ def main(pid, argv):
         if " || " not in il:
             bad = "run failed: " + il[:300]
         elif exp is not None:
-            op = il.split(" || ")[0]
+            ops = il.split(" || ")[0].split(" ; ")
+            op = ops[0]
             rec = op.split("recv=")[1].strip() if "recv=" in op else "none"
+            trec = ops[1].split("tcall=")[1].strip() if len(ops) > 1 and "tcall=" in ops[1] else "none"
             if exp[0] == "err":
                 _, name, val = exp
                 ck.count("name:" + ("accepted" if S.error_name_ok(name) else "refused"))
@@ -97,6 +100,10 @@ def main(pid, argv):
                 ck.distinct.add((k, arg))
                 if C.utf8(arg) and rec != "std %s %s" % (k, S.hx(arg)):
                     bad = "standard error %s(%r) reached the client as %s" % (k, arg, rec[:200])
+            if not bad and rec.startswith(("err ", "std ")) and trec != rec:
+                bad = "a caller with a typed reply struct got %s where a caller with a raw one got %s" % (trec[:200], rec[:200])
+            if not bad and rec.startswith("ok ") and trec != "ok":
+                bad = "typed caller got %s for the fallback reply" % trec[:200]
         if bad:
             nf += 1
             ck.fail("e2e-error", line, bad, impl=il[:1200], model=ml[:1200])
